@@ -29,7 +29,8 @@ pub struct SessionHeartbeatConfig {
 struct HeartbeatState {
     interval: Duration,
     timeout: Duration,
-    last_received: tokio::sync::Mutex<Instant>,
+    /// When the oldest still unanswered keep-alive request was sent.
+    awaiting_since: tokio::sync::Mutex<Option<Instant>>,
 }
 
 /// Session manages multiple streams over a single TLS connection
@@ -121,7 +122,7 @@ impl Session {
             Arc::new(HeartbeatState {
                 interval: cfg.interval,
                 timeout: cfg.timeout,
-                last_received: tokio::sync::Mutex::new(Instant::now()),
+                awaiting_since: tokio::sync::Mutex::new(None),
             })
         });
 
@@ -817,8 +818,7 @@ impl Session {
                 #[cfg(feature = "verif")]
                 crate::verif::point("hf.heartresp").await;
                 if let Some(heartbeat_state) = &self.heartbeat {
-                    let mut last = heartbeat_state.last_received.lock().await;
-                    *last = Instant::now();
+                    *heartbeat_state.awaiting_since.lock().await = None;
                 }
             }
             _ => {
@@ -1294,7 +1294,20 @@ impl Session {
                 ticker.set_missed_tick_behavior(MissedTickBehavior::Delay);
 
                 loop {
-                    ticker.tick().await;
+                    // The peer is dead once a request has stayed unanswered for the
+                    // timeout. That deadline is independent of the tick period (the
+                    // timeout may be shorter than the interval), so wait for whichever
+                    // comes first: the next tick or the oldest request's deadline.
+                    let deadline = heartbeat_state
+                        .awaiting_since
+                        .lock()
+                        .await
+                        .map(|since| since + heartbeat_state.timeout);
+                    let is_tick = tokio::select! {
+                        biased;
+                        _ = ticker.tick() => true,
+                        _ = time::sleep_until(deadline.unwrap_or_else(Instant::now)), if deadline.is_some() => false,
+                    };
                     #[cfg(feature = "verif")]
                     crate::verif::point("hb.after_tick").await;
 
@@ -1306,15 +1319,17 @@ impl Session {
                         break;
                     }
 
-                    let last_seen = {
-                        let guard = heartbeat_state.last_received.lock().await;
-                        Instant::now().saturating_duration_since(*guard)
+                    let unanswered_for = {
+                        let guard = heartbeat_state.awaiting_since.lock().await;
+                        guard.map(|since| Instant::now().saturating_duration_since(since))
                     };
 
-                    if last_seen > heartbeat_state.timeout {
+                    if let Some(elapsed) = unanswered_for
+                        && elapsed >= heartbeat_state.timeout
+                    {
                         tracing::warn!(
                             session_id = session_id,
-                            elapsed_ms = last_seen.as_millis() as u64,
+                            elapsed_ms = elapsed.as_millis() as u64,
                             "[Session] Heartbeat timeout detected; closing session"
                         );
                         if let Err(e) = session.close().await {
@@ -1326,6 +1341,19 @@ impl Session {
                         }
                         break;
                     }
+
+                    if !is_tick {
+                        // woken for a deadline that an answer has met meanwhile
+                        continue;
+                    }
+
+                    // Start the clock before the request goes out, so that its answer
+                    // cannot be handled first.
+                    heartbeat_state
+                        .awaiting_since
+                        .lock()
+                        .await
+                        .get_or_insert_with(Instant::now);
 
                     #[cfg(feature = "verif")]
                     crate::verif::point("hb.before_write").await;
